@@ -145,7 +145,9 @@ def attr_key(it, v):
         if n in ('Cell', 'Slice', 'Builder'):
             return ('cell', bocrun.ckey(it, v))
         if n == 'Address':
-            return ('addr', attr_key(it, v.attrs.get('wc')), attr_key(it, v.attrs.get('hash_part')))
+            ac = v.attrs.get('anycast')
+            ack = None if not isinstance(ac, Inst) else (attr_key(it, ac.attrs.get('depth')), attr_key(it, ac.attrs.get('rewrite_pfx')))
+            return ('addr', attr_key(it, v.attrs.get('wc')), attr_key(it, v.attrs.get('hash_part')), ack)
         if n == 'ExternalAddress':
             return ('ext', attr_key(it, v.attrs.get('external_address')), attr_key(it, v.attrs.get('len')))
         return (n, tuple(sorted((k, attr_key(it, x)) for k, x in v.attrs.items() if k not in ('value_coins', 'cell'))))
@@ -309,6 +311,18 @@ def wrappers(run, prog, db):
                         plugins=K(None) if pl is None else cm.leaf(it, 0, 'plugins'))), 'WalletV4Data', ['seqno', 'wallet_id', 'public_key', 'plugins']))
         out.append(('NftItemData', 'NftItemData', it.construct(prog.cls('NftItemData'), [], dict(index=sym('index'), collection_address=addr(it, prog, 0, 0x55), owner_address=addr(it, prog, -1, 0x66),
                     content=cm.leaf(it, 0, 'content'))), 'NftItemData', ['index', 'collection_address', 'owner_address', 'content']))
+        # the same wrapper with anycast addresses (addr_std with `just anycast_info`): what is given is what is written and read back
+        def any_addr(fill, depth, pfx):
+            a_ = addr(it, prog, 0, fill)
+            cm.call_method(it, a_, 'set_anycast', K(depth), K(pfx))
+            return a_
+        for owner_form in ('Address', 'str'):
+            given = dict(index=sym('index'), collection_address=any_addr(0x55, 3, 5), owner_address=any_addr(0x66, 7, 0x55) if owner_form == 'Address' else K('0:' + '66' * 32),
+                         content=cm.leaf(it, 0, 'content'))
+            obj = it.construct(prog.cls('NftItemData'), [], dict(given))
+            obj.given = {k: v for k, v in given.items() if not (isinstance(v, K) and isinstance(v.v, str))}
+            out.append(('NftItemData', f'NftItemData[anycast, owner given as {owner_form}]', obj, 'NftItemData',
+                        ['index', 'collection_address', 'content'] + (['owner_address'] if owner_form == 'Address' else [])))
         fees = it.construct(prog.cls('NftItemSaleFees'), [], dict(marketplace_fee_address=addr(it, prog, 0, 0x77), marketplace_fee=K(5), royalty_address=addr(it, prog, 0, 0x78), royalty_amount=K(1 << 64)))
         out.append(('NftItemSaleFees', 'NftItemSaleFees', fees, 'NftItemSaleFees', ['marketplace_fee_address', 'marketplace_fee', 'royalty_address', 'royalty_amount']))
         out.append(('NftItemSaleData', 'NftItemSaleData', it.construct(prog.cls('NftItemSaleData'), [], dict(is_complete=K(True), created_at=sym('created_at'), marketplace_address=addr(it, prog, 0, 0x79),
@@ -325,7 +339,8 @@ def wrappers(run, prog, db):
             cell = cm.call_method(it, inst, 'serialize')
             out = decode(it, db, cell, tname, targs[0] if targs else [])
             back = it.call(it.getattr(prog.cls(cname), 'deserialize'), [cm.call_method(it, cell, 'begin_parse')], {})
-            diffs = [f for f in fields if attr_key(it, inst.attrs.get(f)) != attr_key(it, back.attrs.get(f) if isinstance(back, Inst) else None)]
+            given = getattr(inst, 'given', {})
+            diffs = [f for f in fields if attr_key(it, given.get(f, inst.attrs.get(f))) != attr_key(it, back.attrs.get(f) if isinstance(back, Inst) else None)]
             if cname == 'CurrencyCollection':
                 da, db_ = inst.attrs['other'].attrs['dict'], back.attrs['other'].attrs['dict']
                 ka = sorted((k, attr_key(it, v)) for k, v in da.d.items())
